@@ -247,3 +247,26 @@ Proof.
   assert (H : key_eqb (key w2 s2) (key w1 s1) = true) by (rewrite E; unfold key_eqb; rewrite !N.eqb_refl; reflexivity).
   unfold run_cache, get_window. cbn [lookup]. rewrite H. reflexivity.
 Qed.
+
+(* ---------------- QLPC error buffer ---------------- *)
+Lemma lpc_errors_from_len cs sh : forall rest hist, length (lpc_errors_from cs sh hist rest) = length rest.
+Proof. induction rest as [|x t IH]; intros hist; cbn [lpc_errors_from length]; [reflexivity|]. rewrite IH. reflexivity. Qed.
+
+Lemma lpc_errors_len q signal errs : lpc_errors q signal = Ok errs -> length errs = length signal.
+Proof.
+  unfold lpc_errors. intros E.
+  destruct (q_shift q <? 0)%Z; [discriminate|].
+  destruct (maxabs signal * sumabs (q_coefs q) <? 2147483647)%Z.
+  - destruct (forallb _ _); [|discriminate]. inversion E; subst errs.
+    rewrite app_length, repeat_length, lpc_errors_from_len, skipn_length. lia.
+  - inversion E; subst errs.
+    rewrite app_length, repeat_length, map_length, lpc_errors_from_len, skipn_length. lia.
+Qed.
+
+Theorem qlpc_buffer_stale_independent stale q signal :
+  qlpc_error_buffer stale q signal = lpc_errors q signal.
+Proof.
+  unfold qlpc_error_buffer. destruct (lpc_errors q signal) as [e| |] eqn:E; cbn [bind]; try reflexivity.
+  f_equal. unfold overwrite_prefix. rewrite skipn_all2; [apply app_nil_r|].
+  rewrite vresize_length, (lpc_errors_len q signal e E). lia.
+Qed.
